@@ -9,7 +9,7 @@ step/4 (on the grid, exact half-way ties, off the grid) -> compared exactly.  To
 doubles, end points kept away from half-way points -> compared within 1e-9 (relative to the scale)."""
 from fractions import Fraction
 
-from .. import core
+from .. import core, history
 
 PID = "C08"
 THEOREMS = [
@@ -168,6 +168,188 @@ def _tol_case_both(rng, big=False):
             "rep": "float", "fix": "both"}
 
 
+LAYOUTS = ["F", "strided", "readonly"]
+
+
+def _decorate(rng, c):
+    """dtype / memory layout of the arrays handed to persim (the numbers are the same)"""
+    r = rng.random()
+    if r < 0.10:
+        c["layout"] = rng.choice(LAYOUTS)
+    elif r < 0.16 and c["family"] == "exact":
+        c["dtype"] = "float32"          # applied only when every end point is a binary32 number (dyadic grids: yes)
+    return c
+
+
+def _int_exact_case(rng, big=False):
+    """integer-valued end points in an INTEGER-dtype array (the form used throughout the persim docs) on a dyadic
+    grid whose nodes are not integers, so that the end points lie off the grid (or exactly half-way)"""
+    import math
+    m = rng.choice([2, 4, 4, 8, 8, 16, 16, 32] + ([64] if big else []))
+    fix = rng.choice(["both", "both", "both", "none", "start", "stop"])
+    while True:
+        if fix == "both":
+            step = rng.choice([0.5, 1.0, 1.0, 2.0, 2.0, 4.0])
+            start = rng.randint(-8, 8) + rng.choice([0.25, 0.5, 0.75, 0.125, 0.0])
+            stop = start + m * step
+        else:
+            # learned ends are integers (taken from the array): the step is dyadic, not an integer
+            w = rng.choice([w for w in range(1, 4 * m) if w % m != 0] or [1])
+            start = float(rng.randint(-8, 8))
+            stop = start + w
+        lo, hi = math.ceil(start), math.floor(stop)
+        if hi > lo:
+            break
+    bars = []
+    for _ in range(rng.randint(1, 10 if big else 6)):
+        b, d = rng.randint(lo, hi), rng.randint(lo, hi)
+        if b > d:
+            b, d = d, b
+        if b == d and rng.random() < 0.8:
+            b, d = (b, d + 1) if d < hi else (b - 1, d)
+        bars.append([float(b), float(d)])
+    if fix != "both":   # the learned ends are the nominal ones
+        bars[0][0], bars[-1][1] = float(lo), float(hi)
+        bars[0][1], bars[-1][0] = max(bars[0]), min(bars[-1])
+    return {"cls": "int_offgrid", "family": "exact", "dgms": [bars], "hom_deg": 0, "n": m + 1,
+            "start": start if fix in ("both", "start") else None, "stop": stop if fix in ("both", "stop") else None,
+            "fix": fix, "rep": "float", "dtype": rng.choice(["int64", "int64", "int32"])}
+
+
+def _int_tol_case(rng, big=False):
+    """integer-dtype diagrams on grids with an arbitrary (non-dyadic) step: num_steps 8..100 (and the default 500 in
+    the thorough tier) on integer or random ends, or on the default grid; end points away from the half-way points"""
+    for _ in range(200):
+        n = rng.choice([rng.randint(3, 40), rng.randint(3, 40), 8, 13, 24, 50, 100] + ([250, 500] if big else []))
+        lo = rng.randint(-5, 12)
+        hi = lo + rng.randint(2, 15)
+        fix = rng.choice(["both", "both", "both", "none", "start", "stop"])
+        pad = rng.choice(["int", "int", "real"])
+        start = float(lo - rng.randint(0, 2)) if pad == "int" else lo - rng.uniform(0, 2)
+        stop = float(hi + rng.randint(0, 2)) if pad == "int" else hi + rng.uniform(0, 2)
+        bars = []
+        for _ in range(rng.randint(1, 8)):
+            b = rng.randint(lo, hi - 1)
+            bars.append([float(b), float(rng.randint(b + 1, hi))])
+        if rng.random() < 0.1:
+            bars.append(list(rng.choice(bars)))
+        bars[0][0], bars[-1][1] = float(lo), float(hi)
+        bars[0][1], bars[-1][0] = max(bars[0]), min(bars[-1])
+        fs = Fraction(start) if fix in ("both", "start") else Fraction(lo)
+        fe = Fraction(stop) if fix in ("both", "stop") else Fraction(hi)
+        step = (fe - fs) / (n - 1)
+
+        def ok(x):
+            u = (Fraction(x) - fs) / step
+            return abs(u - (u.numerator // u.denominator) - Fraction(1, 2)) > Fraction(1, 10 ** 6)
+        if step.denominator & (step.denominator - 1) == 0 and step.denominator <= 4:
+            continue    # that is the exact family's business
+        if all(ok(x) for bd in bars for x in bd):
+            return {"cls": "int_tol", "family": "tol", "dgms": [bars], "hom_deg": 0, "n": n,
+                    "start": start if fix in ("both", "start") else None, "stop": stop if fix in ("both", "stop") else None,
+                    "fix": fix, "rep": "float", "dtype": rng.choice(["int64", "int64", "int32"])}
+    return _tol_case_both(rng, big)
+
+
+# ------------------------------------------------------------------------------- call histories
+def _step(c, ops=None):
+    d = dict(c)
+    d["obj"] = "shared"
+    d["vec"] = _vec_ok(d)
+    d.pop("ops", None)
+    if ops:
+        d["ops"] = ops
+    return d
+
+
+def _bare(c):
+    d = {k: c[k] for k in _KEY_FIELDS if k in c}
+    d["family"] = c["family"]
+    return d
+
+
+OPS2 = ["add", "sub", "running", "snap", "snap_other", "lc", "avg"]
+OPS1 = ["mul", "div", "neg", "norms", "slice", "recompute", "badgrid"]
+
+
+def _common_grid_family(rng):
+    """2-4 diagrams of different sizes on one grid fixed by the user (what one has before forming sums / means)"""
+    for _ in range(50):
+        kind = rng.choice(["exact", "tol", "int"])
+        if kind == "exact":
+            base = _exact_case(rng, rng.choice(["mixed", "off_grid", "half_tie", "dup"]))
+            base["start"], base["stop"] = (base["start"], base["stop"]) if base["fix"] == "both" else (None, None)
+        elif kind == "tol":
+            base = _tol_case_both(rng)
+        else:
+            base = _int_exact_case(rng) if rng.random() < 0.5 else _int_tol_case(rng)
+        if base["start"] is None or base["stop"] is None or base["family"] not in ("exact", "tol") or base["hom_deg"] != 0:
+            continue
+        base["fix"] = "both"
+        pool = [list(b) for b in base["dgms"][0]]
+        fam = []
+        for _ in range(rng.randint(2, 4)):
+            k = rng.randint(1, len(pool))
+            bars = [list(rng.choice(pool)) for _ in range(k)]
+            if rng.random() < 0.5:
+                # a longer bar built from end points of the pool (end points keep their position relative to the grid)
+                xs = sorted(x for bd in pool for x in bd)
+                bars.append([xs[0], xs[-1]])
+            c = dict(base)
+            c["dgms"] = [bars]
+            fam.append(c)
+        return fam
+    raise RuntimeError("no common-grid family")
+
+
+def _histories(rng, n):
+    """Call histories in one process (harness/history.py): every step is an ordinary case and must satisfy the
+    ordinary predicate.
+      operands  - landscapes P1..Pk of several diagrams on a common grid are built and observed, then USED (sums,
+                  differences, running sums, scalar multiples, norms, slices, snap_pl / lc_approx / average_approx,
+                  a rejected sum of landscapes on different grids), then observed AGAIN: each must still be the
+                  sampled landscape of its own diagram, and the shared transformer must still return its values;
+      sweep     - one diagram (the same ndarray objects) through several grids / num_steps / degrees and back to the
+                  first grid, with a rejected call (degree out of range) in between."""
+    hs = []
+    for i in range(n):
+        if i % 3 != 2:
+            fam = _common_grid_family(rng)
+            first, again = [], []
+            for j, c in enumerate(fam):
+                ops = []
+                for _ in range(rng.randint(1, 3)):
+                    other = fam[(j + rng.randint(1, len(fam) - 1)) % len(fam)]
+                    if rng.random() < 0.65:
+                        ops.append({"op": rng.choice(OPS2), "other": _bare(other)})
+                    else:
+                        ops.append({"op": rng.choice(OPS1), "x": rng.choice([2.0, 0.5, -1.0, 3.0])})
+                first.append(_step(c, ops))
+                again.append(_step(c))
+            rng.shuffle(again)
+            hs.append(history.make("operands", first + again))
+        else:
+            base = _exact_case(rng, rng.choice(["mixed", "off_grid", "inf", "defaults"])) if rng.random() < 0.6 else _tol_case(rng)
+            steps = [_step(base, [{"op": rng.choice(OPS1), "x": 2.0}])]
+            for _ in range(rng.randint(2, 3)):
+                c = dict(base)
+                r = rng.random()
+                if r < 0.4 and base["family"] == "exact":
+                    c["n"] = 2 * (base["n"] - 1) + 1 if base["n"] <= 33 else (base["n"] - 1) // 2 + 1
+                elif r < 0.6:
+                    c["hom_deg"] = len(base["dgms"]) + rng.randint(0, 1)     # rejected: no such degree
+                elif base["start"] is not None and base["stop"] is not None and base["family"] == "exact":
+                    w = base["stop"] - base["start"]
+                    c["start"], c["stop"] = base["start"] - w, base["stop"] + w   # 3x the width: dyadic step again
+                    c["n"] = base["n"]
+                else:
+                    c["layout"] = rng.choice(LAYOUTS)
+                steps.append(_step(c, [{"op": rng.choice(OPS1), "x": 0.5}] if rng.random() < 0.5 else None))
+            steps.append(_step(base))
+            hs.append(history.make("sweep", steps))
+    return hs
+
+
 BIG_KINDS = ["big_default500", "big_explicit513", "big_explicit257", "big_explicit500"]
 
 
@@ -242,6 +424,10 @@ def generate(rng, tier):
         cases.append(_exact_case(rng, classes[i % len(classes)], big and i % 4 == 0))
     for i in range(n_tol):
         cases.append(_tol_case(rng, big and i % 4 == 0))
+    cases = cases[:3 if tier == "quick" else 12] + [_decorate(rng, c) for c in cases[3 if tier == "quick" else 12:]]
+    for i in range(24 if tier == "quick" else 400):
+        cases.append(_int_exact_case(rng, big and i % 4 == 0))
+        cases.append(_int_tol_case(rng, big and i % 4 == 0))
     if big:
         cases += _exhaustive()
     # malformed stream: degree out of range, nothing finite in the diagram
@@ -258,7 +444,7 @@ def generate(rng, tier):
         cases.append(c)
     for c in cases:
         c["vec"] = False if c.get("big") else _vec_ok(c)
-    return cases
+    return cases + _histories(rng, 15 if tier == "quick" else 240)
 
 
 def _exhaustive():
@@ -325,86 +511,195 @@ def _enc_values(v):
     return {"shape": list(v.shape), "rows": v.astype(float).tolist()}
 
 
-def impl_run(cases):
+_KEY_FIELDS = ("dgms", "hom_deg", "start", "stop", "n", "rep", "dtype", "layout")
+
+
+def _key(c):
+    return [c.get(k) for k in _KEY_FIELDS]
+
+
+def _build_arr(c, dg):
+    """the ndarray handed to persim for one diagram: dtype (float64 / integer / float32, only when the cast is
+    exact) and memory layout (C / Fortran order / a strided view into a larger array / read-only)"""
+    import numpy as np
+    a = np.array([[_f(b), _f(d)] for b, d in dg], dtype=float).reshape(-1, 2)
+    fin = bool(a.size) and bool(np.all(np.isfinite(a)))
+    if c.get("rep") == "int" and fin and np.all(a == np.round(a)):
+        a = a.astype(int)
+    dt = c.get("dtype", "float")
+    if dt in ("int64", "int32") and fin and np.all(a == np.round(a)) and np.all(np.abs(a) < 2 ** 30):
+        a = a.astype(dt)
+    elif dt == "float32" and a.dtype.kind == "f" and np.all(a.astype(np.float32).astype(float) == a):
+        a = a.astype(np.float32)   # inf stays inf
+    lay = c.get("layout", "C")
+    if lay == "F":
+        a = np.asfortranarray(a)
+    elif lay == "strided":
+        big = np.full((2 * len(a) + 1, 5), -7, dtype=a.dtype)
+        big[::2, 1:4:2][:len(a)] = a
+        a = big[::2, 1:4:2][:len(a)]
+    elif lay == "readonly":
+        a.setflags(write=False)
+    return a
+
+
+def _arrs(c, memo):
+    """fresh arrays for an ordinary case; inside a call history equal diagrams are THE SAME ndarray objects"""
+    if memo is None:
+        return [_build_arr(c, dg) for dg in c["dgms"]]
+    return [history.intern(memo, ["arr", dg, c.get("rep"), c.get("dtype"), c.get("layout")],
+                           lambda dg=dg: _build_arr(c, dg)) for dg in c["dgms"]]
+
+
+def _kw(c):
+    return dict(start=c["start"], stop=c["stop"], num_steps=c["n"], hom_deg=c["hom_deg"])
+
+
+def _shared_pla(c, memo):
+    """the one PersLandscapeApprox object of (diagram, grid) in this history"""
+    from persim.landscapes import PersLandscapeApprox
+    return history.intern(memo, ["pla"] + _key(c), lambda: PersLandscapeApprox(dgms=_arrs(c, memo), **_kw(c)))
+
+
+def _do_op(op, c, memo):
+    """use the shared landscape object of step c (P) the way a user does between two looks at P.values: arithmetic
+    with the shared landscape Q of another diagram, running sums, scalar multiples, norms, slicing, the tools that
+    take lists of landscapes.  The results are not judged (the property says nothing about them); what is judged is
+    that P.values / Q.values are STILL the sampled landscapes of their diagrams when they are observed again."""
+    from persim.landscapes import PersLandscapeApprox
+    from persim.landscapes.tools import snap_pl, lc_approx, average_approx
+    try:
+        P = _shared_pla(c, memo)
+        Q = _shared_pla(op["other"], memo) if op.get("other") else None
+        k = op["op"]
+        if k == "add":
+            r = P + Q
+        elif k == "sub":
+            r = P - Q
+        elif k == "running":        # running sum / mean, P first
+            acc = P
+            for _ in range(2):
+                acc = acc + Q
+            r = acc / 3
+        elif k == "mul":
+            r = op.get("x", 2.5) * P
+        elif k == "div":
+            r = P / op.get("x", 2.0)
+        elif k == "neg":
+            r = -P
+        elif k == "norms":
+            r = (P.p_norm(2), P.p_norm(1), P.sup_norm())
+        elif k == "slice":
+            r = (P[0], P[0:2], P.values_to_pairs())
+        elif k == "recompute":
+            r = P.compute_landscape()
+        elif k == "snap":
+            r = snap_pl([P, Q])
+        elif k == "snap_other":     # onto another grid
+            r = snap_pl([P, Q], start=float(P.start) - 1.0, stop=float(P.stop) + 1.0, num_steps=int(P.num_steps) + 3)
+        elif k == "lc":
+            r = lc_approx([P, Q], [op.get("x", 2.0), -1.0])
+        elif k == "avg":
+            r = average_approx([P, Q])
+        elif k == "badgrid":        # rejected: the grids differ
+            R = PersLandscapeApprox(dgms=_arrs(c, memo), start=c["start"], stop=c["stop"], num_steps=c["n"] + 1,
+                                    hom_deg=c["hom_deg"])
+            r = P + R
+        else:
+            return "unknown"
+        return "ok"
+    except Exception as e:  # noqa
+        return "error:%s" % type(e).__name__
+
+
+def impl_call(c, memo=None):
+    """One case.  memo is None: every persim call gets freshly built arrays and objects.  Inside a history
+    (harness/history.py) the arrays are shared by identity between the steps, and a step with "obj": "shared" also
+    shares its PersLandscapeApprox object (key: diagram + grid) and its PersistenceLandscaper objects (key: the
+    constructor parameters) with the other steps of the history."""
     import io
     import contextlib
     import numpy as np
     from persim.landscapes import PersLandscapeApprox, PersLandscapeExact, PersistenceLandscaper
     from persim.landscapes.tools import vectorize, death_vector
-    outs = []
-    for c in cases:
-        def arrs():
-            out = []
-            for dg in c["dgms"]:
-                a = np.array([[_f(b), _f(d)] for b, d in dg], dtype=float).reshape(-1, 2)
-                if c.get("rep") == "int" and a.size and np.all(np.isfinite(a)) and np.all(a == np.round(a)):
-                    a = a.astype(int)
-                out.append(a)
-            return out
-        kw = dict(start=c["start"], stop=c["stop"], num_steps=c["n"], hom_deg=c["hom_deg"])
-        o = {}
-        sink = io.StringIO()
-        if c.get("big"):
-            # size class: only a sample of columns crosses the boundary
-            with contextlib.redirect_stdout(sink):
-                keep = {}
 
-                def approx_big():
-                    p = PersLandscapeApprox(dgms=arrs(), **kw)
-                    v = np.asarray(p.values)
-                    keep["v"] = v
-                    if v.dtype.kind not in "fiu" or v.ndim != 2:
-                        return _enc_values(v) if v.size < 1000 else {"error": "BadValues", "msg": "dtype %s shape %s" % (v.dtype, v.shape)}
-                    return {"big": True, "shape": list(v.shape), "nan": bool(np.isnan(v).any()),
-                            "cols": {str(i): v[:, i].astype(float).tolist() for i in c["cols"] if i < v.shape[1]},
-                            "start": float(p.start), "stop": float(p.stop), "max_depth": int(p.max_depth)}
-                o["approx"] = core.guarded(approx_big)
-
-                def same(flatten):
-                    t = np.asarray(PersistenceLandscaper(flatten=flatten, **kw).fit_transform(arrs()))
-                    want = keep["v"].flatten() if flatten else keep["v"]
-                    return {"same": bool(t.shape == want.shape and np.array_equal(t, want)), "shape": list(t.shape)}
-                o["land"] = core.guarded(lambda: same(False))
-                o["flat"] = core.guarded(lambda: same(True))
-                o["dv"] = core.guarded(lambda: {"vals": [("inf" if x == float("inf") else float(x)) for x in death_vector(arrs())]})
-            outs.append(o)
-            continue
+    def arrs():
+        return _arrs(c, memo)
+    shared = memo is not None and c.get("obj") == "shared"
+    kw = _kw(c)
+    o = {}
+    sink = io.StringIO()
+    if c.get("big"):
+        # size class: only a sample of columns crosses the boundary
         with contextlib.redirect_stdout(sink):
-            def approx():
-                p = PersLandscapeApprox(dgms=arrs(), **kw)
-                r = _enc_values(p.values)
-                r["start"], r["stop"], r["max_depth"] = float(p.start), float(p.stop), int(p.max_depth)
-                return r
-            o["approx"] = core.guarded(approx)
-            # the transformer learns missing grid ends from the RAW diagram (infinite bars included): outside "finite
-            # diagrams" as soon as an end is learned and the degree has an infinite bar
-            inf_grid = ((c["stop"] is None or c["start"] is None) and c["hom_deg"] < len(c["dgms"])
-                        and any(d == "inf" for _, d in c["dgms"][c["hom_deg"]]))
-            if inf_grid:
-                o["land"] = o["flat"] = {"skip": "infinite bar with a learned grid end"}
-            else:
-                o["land"] = core.guarded(lambda: _enc_values(PersistenceLandscaper(flatten=False, **kw).fit_transform(arrs())))
-                o["flat"] = core.guarded(lambda: _enc_values(PersistenceLandscaper(flatten=True, **kw).fit_transform(arrs())))
+            keep = {}
 
-                def refit():
-                    # the same object fitted on OTHER data first: user-fixed ends stay, learned ends are learned afresh
-                    t = PersistenceLandscaper(flatten=False, **kw)
-                    t.fit([3.0 * a.astype(float) - 1.0 for a in arrs()])
-                    return _enc_values(t.fit_transform(arrs()))
-                o["refit"] = core.guarded(refit)
-            if c.get("vec"):
-                def vec():
-                    e = PersLandscapeExact(dgms=arrs(), hom_deg=c["hom_deg"])
-                    v = vectorize(e, start=c["start"], stop=c["stop"], num_steps=c["n"])
-                    r = _enc_values(v.values)
-                    r["cps"] = [[[float(x), float(y)] for x, y in depth] for depth in e.critical_pairs]
-                    r["start"], r["stop"] = float(v.start), float(v.stop)
-                    return r
-                o["vec"] = core.guarded(vec)
-            if c["dgms"] and c["dgms"][0]:
-                o["dv"] = core.guarded(lambda: {"vals": [("inf" if x == float("inf") else float(x)) for x in death_vector(arrs())]})
-        outs.append(o)
-    return outs
+            def approx_big():
+                p = PersLandscapeApprox(dgms=arrs(), **kw)
+                v = np.asarray(p.values)
+                keep["v"] = v
+                if v.dtype.kind not in "fiu" or v.ndim != 2:
+                    return _enc_values(v) if v.size < 1000 else {"error": "BadValues", "msg": "dtype %s shape %s" % (v.dtype, v.shape)}
+                return {"big": True, "shape": list(v.shape), "nan": bool(np.isnan(v).any()),
+                        "cols": {str(i): v[:, i].astype(float).tolist() for i in c["cols"] if i < v.shape[1]},
+                        "start": float(p.start), "stop": float(p.stop), "max_depth": int(p.max_depth)}
+            o["approx"] = core.guarded(approx_big)
+
+            def same(flatten):
+                t = np.asarray(PersistenceLandscaper(flatten=flatten, **kw).fit_transform(arrs()))
+                want = keep["v"].flatten() if flatten else keep["v"]
+                return {"same": bool(t.shape == want.shape and np.array_equal(t, want)), "shape": list(t.shape)}
+            o["land"] = core.guarded(lambda: same(False))
+            o["flat"] = core.guarded(lambda: same(True))
+            o["dv"] = core.guarded(lambda: {"vals": [("inf" if x == float("inf") else float(x)) for x in death_vector(arrs())]})
+        return o
+    with contextlib.redirect_stdout(sink):
+        def approx():
+            p = _shared_pla(c, memo) if shared else PersLandscapeApprox(dgms=arrs(), **kw)
+            r = _enc_values(p.values)
+            r["start"], r["stop"], r["max_depth"] = float(p.start), float(p.stop), int(p.max_depth)
+            return r
+        o["approx"] = core.guarded(approx)
+
+        def landscaper(flatten):
+            if shared:
+                return history.intern(memo, ["tr", c["hom_deg"], c["start"], c["stop"], c["n"], flatten],
+                                      lambda: PersistenceLandscaper(flatten=flatten, **kw))
+            return PersistenceLandscaper(flatten=flatten, **kw)
+        # the transformer learns missing grid ends from the RAW diagram (infinite bars included): outside "finite
+        # diagrams" as soon as an end is learned and the degree has an infinite bar
+        inf_grid = ((c["stop"] is None or c["start"] is None) and c["hom_deg"] < len(c["dgms"])
+                    and any(d == "inf" for _, d in c["dgms"][c["hom_deg"]]))
+        if inf_grid:
+            o["land"] = o["flat"] = {"skip": "infinite bar with a learned grid end"}
+        else:
+            o["land"] = core.guarded(lambda: _enc_values(landscaper(False).fit_transform(arrs())))
+            o["flat"] = core.guarded(lambda: _enc_values(landscaper(True).fit_transform(arrs())))
+
+            def refit():
+                # the same object fitted on OTHER data first: user-fixed ends stay, learned ends are learned afresh
+                t = PersistenceLandscaper(flatten=False, **kw)
+                t.fit([3.0 * a.astype(float) - 1.0 for a in arrs()])
+                return _enc_values(t.fit_transform(arrs()))
+            o["refit"] = core.guarded(refit)
+        if c.get("vec"):
+            def vec():
+                e = PersLandscapeExact(dgms=arrs(), hom_deg=c["hom_deg"])
+                v = vectorize(e, start=c["start"], stop=c["stop"], num_steps=c["n"])
+                r = _enc_values(v.values)
+                r["cps"] = [[[float(x), float(y)] for x, y in depth] for depth in e.critical_pairs]
+                r["start"], r["stop"] = float(v.start), float(v.stop)
+                return r
+            o["vec"] = core.guarded(vec)
+        if c["dgms"] and c["dgms"][0]:
+            o["dv"] = core.guarded(lambda: {"vals": [("inf" if x == float("inf") else float(x)) for x in death_vector(arrs())]})
+        if shared and c.get("ops"):
+            o["ops"] = [_do_op(op, c, memo) for op in c["ops"]]
+    return o
+
+
+def impl_run(cases):
+    return [history.run(c, impl_call) if history.is_hist(c) else impl_call(c, None) for c in cases]
 
 
 # ------------------------------------------------------------------------------- the spec (independent of the model)
@@ -456,6 +751,8 @@ def _numeric(o, what):
 
 
 def predicate(c, o):
+    if history.is_hist(c):
+        return history.predicate(c, o, predicate)
     sc = _scope(c)
     # death vector: sorted descending, a rearrangement of the deaths of degree 0
     if "dv" in o:
@@ -565,6 +862,8 @@ def _predicate_big(c, o, bars, start, stop, step, slack):
 
 
 def nontrivial(c, o):
+    if history.is_hist(c):
+        return history.nontrivial(c, o, nontrivial)
     sc = _scope(c)
     a = o.get("approx", {})
     if c.get("big"):
@@ -684,6 +983,9 @@ def coq_judge(cases, outs, results):
         if c.get("big"):
             verdicts[i] = "skip:size (thousands of bars: vm_compute of the model is not run, predicate only)"
             continue
+        if history.is_hist(c):
+            verdicts[i] = "skip:history (every step is judged by the spec predicate)"
+            continue
         if "refit" in o and o["refit"] != o.get("land"):
             verdicts[i] = "disagree:a refitted transformer differs from a fresh one (model: fit depends only on the user's start/stop)"
             continue
@@ -717,6 +1019,16 @@ def shrink_candidates(c):
         d["dgms"] = [[list(b) for b in dg] for dg in d["dgms"]]
         d["vec"] = False if d.get("big") else _vec_ok(d)
         return d
+    if history.is_hist(c):
+        yield from history.shrink(c)
+        for i, st in enumerate(c["seq"]):       # then use the objects less between the observations
+            for j in range(len(st.get("ops") or [])):
+                d = dict(c)
+                st2 = dict(st)
+                st2["ops"] = st["ops"][:j] + st["ops"][j + 1:]
+                d["seq"] = c["seq"][:i] + [st2] + c["seq"][i + 1:]
+                yield d
+        return
     if c.get("big"):
         # drop blocks of bars (the failure may need the size, so only a few coarse candidates);
         # with explicit grid ends only, so that the grid does not move
@@ -738,6 +1050,14 @@ def shrink_candidates(c):
                 yield mk(dgms=ds)
     if c.get("rep") == "int":
         yield mk(rep="float")
+    if c.get("layout", "C") != "C":
+        yield mk(layout="C")
+    if c.get("dtype", "float") != "float":
+        yield mk(dtype="float")
+    if c.get("ops"):
+        d = mk()
+        d.pop("ops")
+        yield d
 
 
 def search_generate(rng, n):
